@@ -916,6 +916,15 @@ struct LcSim : Harness {
           for (auto &o : p["ops"].a) if (o[0].s == "link") o[1] = Json(3);
           c = run_isolated(*this, p, hang_seconds(), false);
         }
+        if (!interp && level == 2 && (c.status == "crash" || c.status == "hang") && plan.at("knobs").gets("mode", "") != "C03") {
+          // Still another function's generator defect in the way.  For the properties whose subject is not the mixing of interfaces
+          // (C16, C17): the failing history reduced to its creation, load, link (same steps, same interfaces) and call ops.  If the
+          // wrong value is still there it does not depend on generation order, repetition, output or interpretation in between.
+          Json q = plan; Json qo = Json::array();
+          for (auto &op : plan.at("ops").a) if (op.k == Json::Arr && op.size() > 0 && (op[0].s == "scan" || op[0].s == "c2m" || op[0].s == "bin" || op[0].s == "load" || op[0].s == "link" || op[0].s == "call")) qo.push(op);
+          q.set("ops", qo);
+          c = run_isolated(*this, q, hang_seconds(), false);
+        }
         if (c.status == "violation" && (c.cls == "wrong_result" || c.cls == "wrong_ext_log")) {
           e.cls = "side_program_level_wrong_value"; e.sig = interp ? "interp" : "gen_O" + std::to_string(level);
           e.detail = "the plain history create/load/link/call of the same program gives the same kind of wrong value (" + c.detail.substr(0, 120) + "): " + e.detail; return;
